@@ -152,11 +152,20 @@ class AddStream(HTMLHandlerBase):
             flask.flash(f'CSRF error: {err}', 'error')
             return self.get(error=str(err))
         for f in models.Stream.get_column_names(with_collections=False):
+            if f == 'pk':
+                # the database numbers a new stream
+                continue
             data[f] = params.get(f)
             if data[f] == '':
                 data[f] = None
         if 'prefix' in params:
             data['directory'] = params['prefix']
+        for name in ['title', 'directory']:
+            if not isinstance(data.get(name), str):
+                if is_ajax():
+                    return jsonify({'error': f'{name} is required'}, 400)
+                flask.flash(f'{name} is required', 'error')
+                return self.get(error=f'{name} is required')
         result = {}
         st = models.Stream.get(directory=data['directory'])
         if st:
@@ -315,19 +324,28 @@ class EditStream(HTMLHandlerBase):
             params = flask.request.json
         else:
             params = flask.request.form
+        if not hasattr(params, 'get'):
+            return flask.make_response('Invalid request', 400)
+        needs_directory: bool = models.MediaFile.count(stream=current_stream) == 0
+        for name in ['title', 'directory', 'marlin_la_url', 'playready_la_url', 'timing_ref']:
+            value = params.get(name)
+            required: bool = name == 'title' or (name == 'directory' and needs_directory)
+            if (value is None or value == '') and not required:
+                continue
+            if not isinstance(value, str) or value == '':
+                return flask.make_response(f'Invalid {name}', 400)
         current_stream.title = params['title']
-        context = self.create_context(current_stream.title, False)
-        if models.MediaFile.count(stream=current_stream) == 0:
+        if needs_directory:
             other = models.Stream.get(directory=params['directory'])
             if other is not None and other.pk != current_stream.pk:
                 models.db.session.rollback()
                 return flask.make_response(
                     f'Directory "{html.escape(params["directory"])}" is used by another stream', 400)
             current_stream.directory = params['directory']
-        current_stream.marlin_la_url = str_or_none(params['marlin_la_url'])
-        current_stream.playready_la_url = str_or_none(params['playready_la_url'])
+        current_stream.marlin_la_url = str_or_none(params.get('marlin_la_url'))
+        current_stream.playready_la_url = str_or_none(params.get('playready_la_url'))
         current_stream.timing_reference = None
-        timing_reference = params.get('timing_ref', '')
+        timing_reference = params.get('timing_ref') or ''
         if timing_reference != '':
             mf = models.MediaFile.get(name=Path(timing_reference).stem)
             if not mf:
@@ -336,17 +354,16 @@ class EditStream(HTMLHandlerBase):
             current_stream.set_timing_reference(mf.as_stream_timing_reference())
         try:
             self.check_csrf('streams', params)
-        except (CsrfFailureException) as cfe:
+        except (ValueError, CsrfFailureException) as cfe:
             logging.debug("csrf check failed")
             logging.debug(cfe)
-            context['error'] = "csrf check failed"
-        if context['error'] is not None:
-            context['csrf_tokens'] = CsrfTokenCollection(
-                files=self.generate_csrf_token('files', context['csrf_key']),
-                kids=self.generate_csrf_token('keys', context['csrf_key']),
-                streams=context['csrf_token'],
-                upload=None)
-            return flask.render_template('media/stream.html', **context)
+            # nothing of the request is kept; the page is rendered again by
+            # its GET handler, which knows everything the template needs
+            models.db.session.rollback()
+            if is_ajax():
+                return jsonify({'error': 'CSRF failure'}, 401)
+            flask.flash(f'CSRF error: {cfe}', 'error')
+            return flask.redirect(flask.url_for('view-stream', spk=spk))
         models.db.session.commit()
         if is_ajax():
             return jsonify(current_stream.toJSON())
